@@ -41,6 +41,9 @@ def number_pipe(ctx, verdict, cases, name="wktnum"):
                 if m < 0 and not sign or (m == 0 and row["x"] == "0:0" and sign):
                     parts.append("FALSE")
                     why = "sign-lost"
+            # the library's own parser returns the same bits ("both return a geometry equal ... in every coordinate bit")
+            if parts and parts != ["FALSE"] and "ownbits" in row:
+                parts.append('"%s" = "%s"' % (",".join(row["ownbits"]), ",".join([row["inbits"]] * len(row["ownbits"]))))
             exprs.append(" /\\ ".join(parts) if parts else "FALSE")
             sigs.append("wktnum|" + why)
             flat.append(dict(kind="nums", d=-1, vals=[v]))
